@@ -188,17 +188,57 @@ def gate(ctx, report, rule, facts, config):
                   site=b.loc(), config=config)
     report.floor(rule, "bodies reaching the table through &World", n_shared, 6, config=config)
     report.floor(rule, "bodies reaching the table through &mut World", n_mut, 4, config=config)
-    # callers of the unsafe escape hatch only borrow
+    # callers of the unsafe escape hatch only borrow: decided in each function that calls it, with private helpers that pass
+    # the cell on to their callers looked at in those callers
     tfi = facts.one(A.WORLD + "::try_fetch_internal")
-    callers = facts.callers().get(tfi.key, [])
-    for cb, bb in callers:
-        bt = prog.bt(cb)
-        consumers = _cell_consumers(prog, cb, bb)
-        bad = [n for n, _ in consumers if n not in SHARED_BORROWS | EXCL_BORROWS]
-        report.ob(rule, "try_fetch_internal-caller/%s" % cb.qname, not bad and consumers,
-                  "cell handed out by try_fetch_internal only goes to %s" % sorted(set(n for n, _ in consumers)) if not bad else
-                  "cell handed out by try_fetch_internal flows into %s" % bad, site=cb.loc(bb), config=config)
-    report.floor(rule, "callers of try_fetch_internal", len(callers), 2, config=config)
+    callers_of = facts.callers()
+
+    def rootfn(x):
+        return facts.bodies.get(x.root_key, x) if x.is_closure and x.root_key else x
+
+    work = sorted(set(rootfn(cb).key for cb, bb in callers_of.get(tfi.key, [])))
+    n_direct = len(work)
+    seen_c = set()
+    n_dec = 0
+    while work:
+        k = work.pop(0)
+        if k in seen_c:
+            continue
+        seen_c.add(k)
+        cb = facts.bodies[k]
+        report.touched(cb, config)
+        try:
+            ev, ends = Q.sem(ctx, facts, cb, opaque=[tfi.key, A.RESID + "::new", A.RESID + "::from_type_id"] + _downcasts(facts))
+        except Exception as e_:
+            report.ob(rule, "try_fetch_internal-caller/%s" % cb.qname, False, "cannot tabulate %s (%s)" % (cb.qname, type(e_).__name__), site=cb.loc(), config=config)
+            continue
+        got = set()
+        for e in ends:
+            for x in _deep_all(e.path.events):
+                if x[0] == "call" and x[2].key == tfi.key:
+                    got.add(x[4])
+        cells = set(("field", ("variant", g, "Some"), "0", "std::option::Option") for g in got)
+        uses = _cell_uses(ev, ends, lambda s_: s_ in cells or s_ in got)
+        bad = sorted(set(n for n, _ in uses if n not in SHARED_BORROWS | EXCL_BORROWS and n != "<return>"))
+        passes_on = any(n == "<return>" for n, _ in uses)
+        detail = "cell handed out by try_fetch_internal only goes to %s" % sorted(set(n for n, _ in uses))
+        ok = bool(got) and not bad
+        if ok and passes_on:
+            cs = sorted(set(rootfn(c2).key for c2, b2 in callers_of.get(cb.key, [])))
+            if cb.raw.get("pub") or not cs:
+                ok = False
+                detail = "the cell handed out by try_fetch_internal is passed on by %s, which %s" % (cb.qname, "is public" if cb.raw.get("pub") else "nobody in the crate calls")
+            else:
+                work.extend(cs)
+                detail += " (passed on to its callers, which are looked at in turn)"
+        elif not got:
+            detail = "no call of try_fetch_internal on any way through %s" % cb.qname
+        elif bad:
+            detail = "cell handed out by try_fetch_internal flows into %s" % bad
+        n_dec += 1 if ok and not passes_on else 0
+        report.ob(rule, "try_fetch_internal-caller/%s" % cb.qname, ok, detail, site=cb.loc(), config=config)
+    report.floor(rule, "callers of try_fetch_internal", n_direct, 1, config=config)
+    report.floor(rule, "uses of try_fetch_internal decided in context", n_dec, 2, config=config)
     # AtomicRefCell API inventory
     uses = {}
     for b in sorted(facts.bodies.values(), key=lambda b: b.key):
@@ -476,15 +516,15 @@ SHARED_OF = [("try_borrow_mut", "try_borrow"), ("borrow_mut", "borrow"), ("Fetch
              ("try_fetch_mut", "try_fetch"), ("get_mut", "get"), ("deref_mut", "deref")]
 
 
-def _tabulation(facts, b):
+def _tabulation(facts, b, opaque=None, rename=()):
     """The function's canonical tabulation with exclusive names read as their shared counterparts."""
     from .sem import Evaluator, Policy
     from .semcanon import canonical
-    ev = Evaluator(facts, Policy(opaque=[A.RESID + "::new", A.RESID + "::assert_same_type_id"]))
+    ev = Evaluator(facts, Policy(opaque=opaque if opaque is not None else [A.RESID + "::new", A.RESID + "::assert_same_type_id"]))
     out = []
     for row in canonical(ev, ev.eval(b), keep=("borrow", "borrow_mut")):
         r = repr(row)
-        for a, b_ in SHARED_OF:
+        for a, b_ in list(rename) + SHARED_OF:
             r = r.replace(a, b_)
         out.append(r)
     return sorted(out)
@@ -582,8 +622,10 @@ def unsafe_inventory(ctx, report, rule, facts, config):
     }
     for q, okf in sorted(callers_ok.items()):
         b = facts.one(q)
+        owners = set(x.key for x in facts.bodies.values() if not x.is_closure and okf(x.qname))
         for cb, bb in facts.callers().get(b.key, []):
-            report.ob(rule, "unsafe-caller/%s<-%s" % (q.rsplit("::", 1)[-1], cb.qname), okf(cb.qname), "%s is called from %s" % (q, cb.qname), site=cb.loc(bb), config=config)
+            # the audited callers, or a private helper that only they reach
+            report.ob(rule, "unsafe-caller/%s<-%s" % (q.rsplit("::", 1)[-1], cb.qname), S.owned_by(facts, cb, owners), "%s is called from %s" % (q, cb.qname), site=cb.loc(bb), config=config)
 
 
 # ------------------------------------------------------------------ C09
